@@ -229,6 +229,12 @@ fn c05_roundtrip(lib: &LefLibrary, via_save: bool) -> Result<(), String> {
     } else {
         lib.to_string().map_err(|e| format!("to_string() of a library the reader produced failed: {:?}", e))?
     };
+    // writing is a function of the library: a second call on the same value gives the same text
+    if let Ok(again) = lib.to_string() {
+        if !via_save && again != txt {
+            return Err(format!("to_string() called twice on one library gave two texts; {}", first_diff(&txt, &again)));
+        }
+    }
     match open_text(&txt) {
         Err(e) => Err(format!("text written by the LEF writer is rejected by the reader: {}\n--- written ---\n{}", short(&format!("{:?}", e), 300), short(&txt, 1500))),
         Ok(back) => {
@@ -260,6 +266,32 @@ fn c05_case(src: &mut Src, ctx: &mut Ctx) -> Result<(), String> {
     }
     ctx.sample("library in the reader's image", || short(&format!("{:?}", read), 1200));
     let via_save = src.prob(1, 16);
+    // one time in eight the writer is first asked for something it must refuse (a statement that is not legal
+    // under the library's version), part of the way into the text: the call after a failed call is like any other
+    if src.prob(1, 8) {
+        let mut doomed = read.clone();
+        doomed.version = Some(LefDecimal::new(58, 1));
+        match src.below(3) {
+            0 => doomed.names_case_sensitive = Some(LefOnOff::On),
+            1 => {
+                let mut m = LefMacro::new("doomed");
+                m.source = Some(LefDefSource::User);
+                doomed.macros.push(m);
+            }
+            _ => {
+                doomed.names_case_sensitive = Some(LefOnOff::Off);
+                doomed.macros.truncate(1);
+            }
+        }
+        if doomed.to_string().is_err() {
+            ctx.label("written right after a call the writer refused");
+        }
+        if src.bool() {
+            let path = scratch_path("c05.doomed.lef");
+            let _ = doomed.save(&path);
+            let _ = std::fs::remove_file(&path);
+        }
+    }
     c05_roundtrip(&read, via_save)
 }
 /// version-gated statements under every version: whatever the reader accepts, the writer must emit
